@@ -14,6 +14,9 @@
     cache_unobservable noescape_cleared_by_end site_after_end_is_escaped escaping_by_enclosing_elements
     two_scripts_then_site_escaped empty_script_keeps_escaping
     structure_preserved_markup_strip_partial markup_attr_newline_normalised reread_tree
+    reread_rawtext_nostrip structure_preserved_rawtext_partial rawtext_covers_plain_templates
+    rawtext_spec_is_plain_spec rawtext_no_etago_needed rawtext_etago_closes_element rawtext_site_not_escaped
+    reader_raw_mode_runs_to_etago structure_preserved_rawtext_as_written rawtext_strip_normalises_content
 -/
 import Genshi.Lemmas.Subst
 import Genshi.Lemmas.SubstTmpl
@@ -25,6 +28,7 @@ import Genshi.Lemmas.SubstNest
 import Genshi.Lemmas.SubstCache
 import Genshi.Lemmas.SubstSpliceWs
 import Genshi.Lemmas.SubstTree
+import Genshi.Lemmas.SubstRaw
 namespace Genshi.Props.C01
 open Genshi.Escape Genshi.Str Genshi.Subst
 
@@ -804,5 +808,183 @@ example : readDoc .html (serialize .html false (renderList [] exampleT)) =
           .start ['b'] [(['c', 'l', 'a', 's', 's'], ['"'])], .text ['&'] false, .end_ ['b'],
           .start ['b', 'r'] [], .end_ ['b', 'r'],
           .end_ ['d', 'i', 'v']] := by decide
+
+/-! ## html templates WITH raw-text elements (`script`, `style`)
+
+  Inside a raw-text element under html the property states its own exception: no escaping takes
+  place.  What it still says about such a template: the element structure OUTSIDE is the template's,
+  every value there verbatim; and the raw-text element holds, as raw text, exactly the strings its
+  body emitted — provided they hold no `</` (a reader ends raw text at the next `</`). -/
+
+/-- **Re-reading a stream with raw-text elements** (no whitespace stripping): for every stream whose
+    names are plain, whose `Markup` texts outside raw text are escaped text, whose raw-text elements
+    hold TEXT events only with no `</` in their concatenated strings (`EvsOkR`; decidable form
+    `rawOkGo`) and which `EmptyTagFilter` passes (`emptyOkGo`), the reader — in raw-text mode between
+    the tags of `script`/`style` under html — gives the stream with its character data merged and
+    decoded outside raw text, and merged as it was emitted inside (`coalesceR`). -/
+theorem reread_rawtext_nostrip (m : Method) (evs : List Ev)
+    (hok : rawOkGo m none evs = true) (hnest : emptyOkGo m none evs = true) :
+    readDoc m (serialize m false evs) = some (coalesceR m evs) :=
+  readDoc_serialize_rawtext m evs (evsOkR_of_B m evs none hok) hnest
+
+example : rawOkGo .html none
+    [.start ['p'] [], .text ['<'] false, .end_ ['p'],
+     .start ['s', 'c', 'r', 'i', 'p', 't'] [(['i', 'd'], ['"'])], .text ['a', '<', 'b'] false, .text ['&', '&'] true,
+     .end_ ['s', 'c', 'r', 'i', 'p', 't'], .start ['s', 't', 'y', 'l', 'e'] [], .end_ ['s', 't', 'y', 'l', 'e'],
+     .text ['<', '/'] false] = true := by decide
+
+example : readDoc .html (serialize .html false
+    [.start ['p'] [], .text ['<'] false, .end_ ['p'],
+     .start ['s', 'c', 'r', 'i', 'p', 't'] [(['i', 'd'], ['"'])], .text ['a', '<', 'b'] false, .text ['&', '&'] true,
+     .end_ ['s', 'c', 'r', 'i', 'p', 't'], .start ['s', 't', 'y', 'l', 'e'] [], .end_ ['s', 't', 'y', 'l', 'e'],
+     .text ['<', '/'] false]) =
+  some [.start ['p'] [], .text ['<'] false, .end_ ['p'],
+     .start ['s', 'c', 'r', 'i', 'p', 't'] [(['i', 'd'], ['"'])], .text ['a', '<', 'b', '&', '&'] false,
+     .end_ ['s', 'c', 'r', 'i', 'p', 't'], .start ['s', 't', 'y', 'l', 'e'] [], .end_ ['s', 't', 'y', 'l', 'e'],
+     .text ['<', '/'] false] := by decide
+
+/-- **Structure preserved, html templates with raw-text elements included** (`strip_whitespace=False`).
+
+    FULL STATEMENT: as `structure_preserved_partial`, for both whitespace settings, for templates in which
+    `script`/`style` elements occur anywhere and hold literal text and substitution sites: re-reading the
+    rendered output gives the skeleton of the template with every value outside raw text verbatim, and each
+    raw-text element holding the concatenation of the strings its body emitted (no escaping there — the
+    property's exception), provided that concatenation holds no `</`.
+
+    PROVED: exactly that, for every method, template and environment, WITHOUT whitespace stripping:
+    `readDoc m (serialize m false (renderList env T)) = some (coalesceR m (expectedListR m env T))`, where
+    `expectedListR` is `expectedList` (no reference to escaping) with a raw-text element holding
+    `rawData (renderList env body)`.  Hypotheses: `nodesOkR m env T` — as `nodesOkB` (plain names, escaped-text
+    author markup, safe values without tags), and an element may be a raw-text element when its body renders (in
+    this environment) to TEXT events only whose strings together hold no `</`; `listOk` (operand domain of C18).
+    MISSING: `strip_whitespace=True` (the filter normalises the raw text as one `Markup` run: the content read back
+    is `normWs` of the concatenation outside `pre`); the XML-level normalisations as in `structure_preserved_partial`.
+    When the content holds `</` the statement is false: `rawtext_etago_closes_element`. -/
+theorem structure_preserved_rawtext_partial (m : Method) (T : List Subst.Node) (env : Env)
+    (hT : nodesOkR m env T = true) (hdom : listOk env T = true) (henv : EnvOk env) :
+    readDoc m (serialize m false (renderList env T)) = some (coalesceR m (expectedListR m env T)) :=
+  readDoc_render_rawtext m env T hT hdom henv
+
+/-- … and the same for the loops AS THEY ARE WRITTEN (per-render event cache, `noescape` flag: `serializeC`, what the driver
+    runs against the real code): the rendered stream of such a template keeps raw-text elements free of element children
+    (`rawLeafGo`, the hypothesis of `escaping_by_enclosing_elements`), so which of its texts are written raw is decided by the
+    innermost open element alone (`serEncl`, no flag, no cache), and re-reading gives the specification. -/
+theorem structure_preserved_rawtext_as_written (m : Method) (T : List Subst.Node) (env : Env)
+    (hT : nodesOkR m env T = true) (hdom : listOk env T = true) (henv : EnvOk env) :
+    rawLeafGo m [] (emptyTags (renderList env T)) = true ∧
+    serializeC m false (renderList env T) = serEncl m [] (emptyTags (renderList env T)) ∧
+    readDoc m (serializeC m false (renderList env T)) = some (coalesceR m (expectedListR m env T)) := by
+  have hleaf := render_rawLeaf m env T hT hdom henv
+  refine ⟨hleaf, ?_, ?_⟩
+  · have := escaping_by_enclosing_elements m (emptyTags (renderList env T)) hleaf
+    simpa [serializeC] using this
+  · rw [cache_unobservable]
+    exact readDoc_render_rawtext m env T hT hdom henv
+
+/-- `<div><script type="…">var a = "${v0}" ; ${v1}</script><p title="${v0}">${v1}</p></div><style/>` with
+    `v0 = a<b&`, `v1 = Markup('&amp;')`: inside the script both strings as they are, outside the values verbatim -/
+def exampleR : List Subst.Node :=
+  [.el ['d', 'i', 'v'] [] none
+     [.el ['s', 'c', 'r', 'i', 'p', 't'] [(['t', 'y', 'p', 'e'], .static ['j', 's'])] none
+        [.lit ['v', 'a', 'r', ' ', 'a', '=', '"'], .site (.v (.var 0)), .lit ['"', ';'], .site (.v (.var 1))],
+      .el ['p'] [(['t', 'i', 't', 'l', 'e'], .interp [.expr (.var 0)])] none [.site (.v (.var 1))]],
+   .el ['s', 't', 'y', 'l', 'e'] [] none []]
+
+def exampleREnv : Env := [.str ['a', '<', 'b', '&'], .markup ['&', 'a', 'm', 'p', ';']]
+
+example : nodesOkR .html exampleREnv exampleR = true ∧ nodesOkR .xhtml exampleREnv exampleR = true ∧
+    listOk exampleREnv exampleR = true ∧ nodesOkB .html exampleR = false := by decide
+
+example : readDoc .html (serialize .html false (renderList exampleREnv exampleR)) =
+    some [.start ['d', 'i', 'v'] [],
+          .start ['s', 'c', 'r', 'i', 'p', 't'] [(['t', 'y', 'p', 'e'], ['j', 's'])],
+          .text ['v', 'a', 'r', ' ', 'a', '=', '"', 'a', '<', 'b', '&', '"', ';', '&', 'a', 'm', 'p', ';'] false,
+          .end_ ['s', 'c', 'r', 'i', 'p', 't'],
+          .start ['p'] [(['t', 'i', 't', 'l', 'e'], ['a', '<', 'b', '&'])], .text ['&'] false, .end_ ['p'],
+          .end_ ['d', 'i', 'v'],
+          .start ['s', 't', 'y', 'l', 'e'] [], .end_ ['s', 't', 'y', 'l', 'e']] := by decide
+
+/-- the same template under xhtml: `script` is an ordinary element there, everything is escaped and decoded -/
+example : readDoc .xhtml (serialize .xhtml false (renderList exampleREnv exampleR)) =
+    some [.start ['d', 'i', 'v'] [],
+          .start ['s', 'c', 'r', 'i', 'p', 't'] [(['t', 'y', 'p', 'e'], ['j', 's'])],
+          .text ['v', 'a', 'r', ' ', 'a', '=', '"', 'a', '<', 'b', '&', '"', ';', '&'] false,
+          .end_ ['s', 'c', 'r', 'i', 'p', 't'],
+          .start ['p'] [(['t', 'i', 't', 'l', 'e'], ['a', '<', 'b', '&'])], .text ['&'] false, .end_ ['p'],
+          .end_ ['d', 'i', 'v'],
+          .start ['s', 't', 'y', 'l', 'e'] [], .end_ ['s', 't', 'y', 'l', 'e']] := by decide
+
+/-- the new statement covers every template of `structure_preserved_partial` … -/
+theorem rawtext_covers_plain_templates (m : Method) (T : List Subst.Node) (env : Env)
+    (hT : nodesOkB m T = true) : nodesOkR m env T = true :=
+  nodesOkR_of_B m T env hT
+
+/-- … and says the same there: without raw-text elements the raw-aware specification is the plain one -/
+theorem rawtext_spec_is_plain_spec (m : Method) (T : List Subst.Node) (env : Env)
+    (hT : nodesOkB m T = true) :
+    expectedListR m env T = expectedList env T ∧
+    (∀ evs : List Ev, (∀ t a, Ev.start t a ∈ evs → isRawElem m t = false) → coalesceR m evs = coalesce evs) :=
+  ⟨expectedListR_of_B m T env hT, fun evs h => coalesceR_plain m evs h⟩
+
+/-- a string without `</` keeps the reader inside the raw-text element, whatever else it holds (`<`, `&`,
+    quotes, `]]>`, `-->` …): the content collected is the string itself -/
+theorem rawtext_no_etago_needed (m : Method) (st : RS) (c s : List Char)
+    (hst : st.buf = c ∧ st.mode = .raw) (h : noEtago (c ++ s) = true) :
+    ∃ st', run m st s = some st' ∧ st'.buf = c ++ s ∧ (st'.mode = .raw ∨ st'.mode = .rawLt) ∧ st'.out = st.out := by
+  obtain ⟨st', h1, h2, h3⟩ := run_raw_chars m s st c ⟨hst.1, Or.inl hst.2⟩ h
+  exact ⟨st', h1, h2.1, h2.2.imp id (fun x => x.1), h3⟩
+
+/-- `<script>${v}</script>` with `v = '</script><b>'` under html: the value is written as it is (the documented
+    exception), the reader leaves raw text at its `</`, and the re-read structure has an element `b` the template
+    does not have — the hypothesis "no `</` in the content" cannot be dropped -/
+theorem rawtext_etago_closes_element :
+    let T : List Subst.Node := [.el ['s', 'c', 'r', 'i', 'p', 't'] [] none [.site (.v (.var 0))]]
+    let env : Env := [.str ['<', '/', 's', 'c', 'r', 'i', 'p', 't', '>', '<', 'b', '>']]
+    nodesOkR .html env T = false ∧
+    serialize .html false (renderList env T) =
+      ['<', 's', 'c', 'r', 'i', 'p', 't', '>', '<', '/', 's', 'c', 'r', 'i', 'p', 't', '>', '<', 'b', '>',
+       '<', '/', 's', 'c', 'r', 'i', 'p', 't', '>'] ∧
+    readDoc .html (serialize .html false (renderList env T)) =
+      some [.start ['s', 'c', 'r', 'i', 'p', 't'] [], .end_ ['s', 'c', 'r', 'i', 'p', 't'], .start ['b'] [],
+            .end_ ['s', 'c', 'r', 'i', 'p', 't']] ∧
+    readDoc .html (serialize .html false (renderList env T)) ≠ some (coalesceR .html (expectedListR .html env T)) := by
+  decide
+
+/-- why `structure_preserved_rawtext_partial` is stated without whitespace stripping: with `strip_whitespace=True`
+    the filter normalises the raw text too (blanks before a newline, runs of newlines) — `<script>${v}</script>` with
+    `v = 'a<b  \n\n c'` is read back as `a<b\n c`, still unescaped; the specification there is `normWs` of the
+    concatenation, not the concatenation -/
+theorem rawtext_strip_normalises_content :
+    let T : List Subst.Node := [.el ['s', 'c', 'r', 'i', 'p', 't'] [] none [.site (.v (.var 0))]]
+    let env : Env := [.str ['a', '<', 'b', ' ', ' ', '\n', '\n', ' ', 'c']]
+    nodesOkR .html env T = true ∧
+    readDoc .html (serialize .html true (renderList env T)) =
+      some [.start ['s', 'c', 'r', 'i', 'p', 't'] [], .text ['a', '<', 'b', '\n', ' ', 'c'] false,
+            .end_ ['s', 'c', 'r', 'i', 'p', 't']] ∧
+    readDoc .html (serialize .html true (renderList env T)) ≠ some (coalesceR .html (expectedListR .html env T)) := by
+  decide
+
+/-- a not-safe value inside `script` under html is NOT escaped (the exception), under xhtml it is -/
+theorem rawtext_site_not_escaped :
+    let T : List Subst.Node := [.el ['s', 'c', 'r', 'i', 'p', 't'] [] none [.site (.v (.var 0))]]
+    let env : Env := [.str ['a', '<', 'b']]
+    serialize .html false (renderList env T) =
+      ['<', 's', 'c', 'r', 'i', 'p', 't', '>', 'a', '<', 'b', '<', '/', 's', 'c', 'r', 'i', 'p', 't', '>'] ∧
+    serialize .xhtml false (renderList env T) =
+      ['<', 's', 'c', 'r', 'i', 'p', 't', '>', 'a', '&', 'l', 't', ';', 'b', '<', '/', 's', 'c', 'r', 'i', 'p', 't', '>'] := by
+  decide
+
+/-- the reader's raw-text mode: `<`, `&amp;` and a start tag inside `script` are content under html and
+    markup / a reference under xhtml -/
+theorem reader_raw_mode_runs_to_etago :
+    readDoc .html ['<', 's', 'c', 'r', 'i', 'p', 't', '>', '<', 'b', '>', '&', 'a', 'm', 'p', ';', '<',
+                   '<', '/', 's', 'c', 'r', 'i', 'p', 't', '>'] =
+      some [.start ['s', 'c', 'r', 'i', 'p', 't'] [], .text ['<', 'b', '>', '&', 'a', 'm', 'p', ';', '<'] false,
+            .end_ ['s', 'c', 'r', 'i', 'p', 't']] ∧
+    readDoc .xhtml ['<', 's', 'c', 'r', 'i', 'p', 't', '>', '<', 'b', '>', '&', 'a', 'm', 'p', ';',
+                    '<', '/', 's', 'c', 'r', 'i', 'p', 't', '>'] =
+      some [.start ['s', 'c', 'r', 'i', 'p', 't'] [], .start ['b'] [], .text ['&'] false,
+            .end_ ['s', 'c', 'r', 'i', 'p', 't']] := by
+  decide
 
 end Genshi.Props.C01
